@@ -33,4 +33,5 @@ func c19(c *Ctx) {
 		}
 	}
 	boundsFor(c, "C19", []*ssa.Function{um, ma})
+	accFreshFor(c, 4, "vlaextension.go")
 }
